@@ -65,6 +65,51 @@ def observe(path, spec):
     return {"rg_rows": rg_rows, "chunks": chunks}
 
 
+def _big_page_job(job):
+    """thorough tier: ONE data page of 2^27 rows (BOOLEAN column written OPTIONAL without nulls, one row group): the run header of its
+    definition levels needs the fifth varint byte - the real write -> read at the size the scratch-buffer theorems are about.
+    Compared with numpy (no per-cell Python objects); about 1 GB transient."""
+    import numpy as np
+    import pandas as pd
+    import fastparquet
+    from fastparquet import writer
+    n = job["rows"]
+    tmp = tempfile.mkdtemp(prefix="verif-C01big-", dir="/tmp")
+    old = writer.DATAPAGE_VERSION
+    try:
+        a = np.zeros(n, dtype=bool)
+        a[::3] = True
+        a[-1] = True
+        df = pd.DataFrame({"b": a})
+        fn = os.path.join(tmp, "big.parquet")
+        writer.DATAPAGE_VERSION = job["dpv"]
+        try:
+            fastparquet.write(fn, df, row_group_offsets=[0], has_nulls=True, stats=False)
+        except Exception as e:      # noqa: allowed outcome
+            return {"outcome": "write-raised", "err": "%s: %s" % (type(e).__name__, str(e)[:200])}
+        finally:
+            writer.DATAPAGE_VERSION = old
+        del df
+        pf = fastparquet.ParquetFile(fn)
+        pages = sum(1 for rg in pf.row_groups for c in rg.columns)
+        try:
+            got = pf.to_pandas()
+        except Exception as e:      # noqa
+            return {"outcome": "read-raised", "err": "%s: %s" % (type(e).__name__, str(e)[:200])}
+        probs = []
+        if len(got) != n:
+            probs.append("%d rows written, %d read" % (n, len(got)))
+        elif str(got["b"].dtype) != "bool":
+            probs.append("column b: dtype bool came back as %s" % got["b"].dtype)
+        else:
+            bad = np.flatnonzero(np.asarray(got["b"].values) != a)
+            if len(bad):
+                probs.append("column b: %d of %d cells differ, first at row %d" % (len(bad), n, int(bad[0])))
+        return {"outcome": "ok" if not probs else "differs", "problems": probs, "row_groups": len(pf.row_groups), "chunks": pages}
+    finally:
+        shutil.rmtree(tmp, ignore_errors=True)
+
+
 def gen_jobs(ctx):
     from harness import rt
     rng = ctx.rng
@@ -101,7 +146,8 @@ def gen_jobs(ctx):
 FIXED_ZONES = [-2700, -1800, -60, 60, 2700, -3600, 3600, -12600, 19800, 20700, 50400, -43200, -86340, 86340,
                30, -30, 3630, -3599, -86399, 86399]
 NAMED_ZONES = ["UTC", "Europe/Berlin", "Asia/Kolkata", "Asia/Kathmandu", "America/St_Johns", "Australia/Lord_Howe",
-               "Pacific/Chatham", "Etc/GMT+12", "Etc/GMT-14", "America/New_York"]
+               "Pacific/Chatham", "Etc/GMT+12", "Etc/GMT-14", "America/New_York", "Australia/Sydney", "Europe/Istanbul",
+               "America/Indiana/Indianapolis", "Africa/Sao_Tome"]
 
 
 def zone_block(ctx):
@@ -123,6 +169,8 @@ def zone_block(ctx):
         unit = ["ns", "us", "ms", "s"][i % 4]
         col = {"name": "c0_dttz_%s" % unit, "kind": "dttz_%s" % unit, "nulls": "some", "seed": 777 + i, "tz": z}
         jobs.append(({"n": 9, "cols": [col], "index": None}, dict(base)))
+        # (the zone NAME takes part in dtype-name tests of the writer: both `times` modes, every zone)
+        jobs.append(({"n": 9, "cols": [dict(col, seed=555 + i)], "index": None}, dict(base, times="int96", dpv=1 + i % 2)))
         ix = {"name": "idx", "kind": "dttz_ns", "nulls": "none", "seed": 999 + i, "tz": z}
         plain = {"name": "c0_int64", "kind": "int64", "nulls": "none", "seed": 5}
         jobs.append(({"n": 9, "cols": [plain], "index": ix}, dict(base)))
@@ -215,6 +263,17 @@ def run(ctx):
             ctx.correspondence("offsets_int/slices ~ row groups written by iter_dataframe", case, [x for x in mo if x], impl)
         else:
             ctx.correspondence("pages(rpp) ~ data-page value counts of write_column (rpp = first page)", case, mo, impl)
+    if not ctx.quick():
+        # one data page of 2^27 (+9) rows, for real: the size at which the run header needs its fifth byte (seeded C01-6 class)
+        bjobs = [{"rows": 2 ** 27, "dpv": 1}, {"rows": 2 ** 27 + 9, "dpv": 2}]
+        for bj, r in zip(bjobs, C.pmap(_big_page_job, bjobs, init=_init, nproc=1, job_timeout=900)):
+            if isinstance(r, dict) and "__crashed__" in r:
+                r = {"outcome": "crashed", "problems": ["write -> read did not complete: " + r["__crashed__"]]}
+            ctx.case({"big_page": bj}, trivial=(r["outcome"] == "write-raised"))
+            ctx.count("big_page", r["outcome"])
+            if r["outcome"] not in ("ok", "write-raised"):
+                ctx.fail({"component": "big page", "outcome": r["outcome"], "dpv": bj["dpv"]}, {"big_page": bj},
+                         "; ".join(r.get("problems") or [r.get("err", "")])[:800])
     # page-level tie: make_definitions / encode_dict / skip_definition_bytes vs Impl/WLevels.v + spec decoder oracle
     C.use_shadow()
     wlevels.run(ctx, pq)
@@ -232,6 +291,10 @@ def replay_function_case(case):
     if "w_convert" in case:
         from harness import wconvert
         return wconvert.replay(case)
+    if "big_page" in case:
+        r = _big_page_job(case["big_page"])
+        print(r)
+        return 0 if r["outcome"] in ("ok", "write-raised") else 1
     pq = C.Pqref()
     try:
         if "tz_seconds" in case:
@@ -261,7 +324,7 @@ def replay_function_case(case):
 def replay(rep):
     warnings.filterwarnings("ignore")
     case = rep.get("case", {})
-    if rep.get("kind") != "no-failing-input-found" and ("tz_seconds" in case or "make_definitions" in case or "encode_dict" in case or "w_convert" in case):
+    if rep.get("kind") != "no-failing-input-found" and ("tz_seconds" in case or "make_definitions" in case or "encode_dict" in case or "w_convert" in case or "big_page" in case):
         return replay_function_case(case)
     if rep.get("kind") == "no-failing-input-found" or "spec" not in case:
         print(json.dumps(rep, indent=1)[:6000])
